@@ -73,7 +73,9 @@ func TestCheck(t *testing.T) {
 			cfg.BigNumbers = true
 			c.Doc = string(jsongen.Gen(t, cfg).Render())
 		} else {
-			c.Doc = string(jsongen.Typed(t, spec, known.DecTypedCfg(jsongen.DefaultTyped)))
+			tc := known.DecTypedCfg(jsongen.DefaultTyped)
+			tc.CaseKeys = rapid.IntRange(0, 3).Draw(t, "casekeys") == 0 // per document, so that most documents stay outside the case-fold finding
+			c.Doc = string(jsongen.Typed(t, spec, tc))
 		}
 		if rapid.IntRange(0, 2).Draw(t, "prepop") == 0 {
 			c.Prepop = true
